@@ -22,6 +22,8 @@ pub const NOT_STARTED: u8 = 4;
 
 /// Harness-level sites (between actor steps), numbered above calloop's.
 pub const SITE_HARNESS: u32 = 1000;
+/// Pseudo-site logged by the controller when it grants a step to a thread.
+pub const SITE_GRANT: u32 = 1001;
 
 pub struct Slot {
     pub state: AtomicU8,
@@ -237,6 +239,21 @@ impl CaseCtl {
     }
 }
 
+impl CaseCtl {
+    /// Is thread `idx` asleep in the kernel right now, stably (five observations one millisecond apart)?
+    pub fn confirm_asleep(&self, idx: usize) -> bool {
+        let slot = &self.slots[idx];
+        let tid = slot.tid.load(Ordering::SeqCst);
+        for _ in 0..5 {
+            if slot.state.load(Ordering::SeqCst) != BLOCKED || !thread_sleeping(tid) {
+                return false;
+            }
+            std::thread::sleep(Duration::from_millis(1));
+        }
+        true
+    }
+}
+
 #[derive(Debug, Clone, PartialEq)]
 pub enum RunEnd {
     /// every enrolled thread finished
@@ -326,6 +343,10 @@ pub fn drive(ctl: &Arc<CaseCtl>, schedule: &[u8], exact: bool, max_steps: u64, p
         branching.push(b as u8);
         chosen.push(pick as u8);
         steps += 1;
+        {
+            let t = ctl.tick.fetch_add(1, Ordering::SeqCst) + 1;
+            ctl.log.lock().unwrap().push(LogEntry { tick: t, thread: waiting[pick], site: SITE_GRANT });
+        }
         ctl.grant(waiting[pick]);
     }
 }
